@@ -816,6 +816,20 @@ class Interp:
             if isinstance(o, AFrame):
                 yield True, env, st
                 return
+            if isinstance(o, Obj) and o.cls is not None:
+                # an instance is true unless its class says otherwise
+                for dunder in ("__bool__", "__len__"):
+                    r = o.cls.lookup(dunder)
+                    if r is None or r[1] in ("attr", "class"):
+                        continue
+                    for rv, st2 in self.call_fn(r[2], r[0], [], {}, st,
+                                                self_=v, kind="inst"):
+                        if isinstance(rv, Raise):
+                            yield rv, _sync_iv(env, st2), st2
+                        else:
+                            yield from self.truth(rv, _sync_iv(env, st2),
+                                                  st2)
+                    return
             yield True, env, st
             return
         if isinstance(v, Sym):
